@@ -68,3 +68,150 @@ def handed_out_buffers(ctx, rid, f, what):
         else:
             ctx.ok(rid, c, f"{f.name}: {what}: {B.id!r} is re-allocated after being appended to {L!r}, before any further write")
     return n
+
+
+MUTATOR_METHODS = {"append", "extend", "insert", "pop", "remove", "clear", "update", "setdefault", "popitem", "sort", "reverse", "fill", "add", "discard"}
+DRAW_METHODS = {"random", "choice", "integers", "normal", "uniform", "shuffle", "permutation", "standard_normal"}
+
+
+def _self_effects(methods):
+    """name -> (attrs of self written, attrs of self read), transitively over self.<method>() calls."""
+    from ..loader import FUNC
+    from ..util import is_self_attr
+    direct_w, direct_r, calls = {}, {}, {}
+    for name, f in methods.items():
+        w, r, c = set(), set(), set()
+        for n in walk_local(f):
+            tgts = []
+            if isinstance(n, ast.Assign):
+                tgts = n.targets
+            elif isinstance(n, (ast.AugAssign, ast.AnnAssign)):
+                tgts = [n.target]
+            elif isinstance(n, ast.Delete):
+                tgts = n.targets
+            for t in tgts:
+                for tt in (t.elts if isinstance(t, ast.Tuple) else [t]):
+                    base = tt
+                    while isinstance(base, (ast.Subscript,)):
+                        base = base.value
+                    if isinstance(base, ast.Attribute):
+                        b2 = base
+                        while isinstance(b2.value, (ast.Attribute, ast.Subscript)):
+                            b2 = b2.value if isinstance(b2.value, ast.Attribute) else b2.value
+                            if not isinstance(b2, ast.Attribute):
+                                break
+                        root = base
+                        chain = []
+                        x = tt
+                        while isinstance(x, (ast.Attribute, ast.Subscript)):
+                            if isinstance(x, ast.Attribute):
+                                chain.append(x.attr)
+                            x = x.value
+                        if isinstance(x, ast.Name) and x.id == "self" and chain:
+                            w.add(chain[-1])
+            if isinstance(n, ast.Call) and isinstance(n.func, ast.Attribute):
+                x = n.func.value
+                chain = []
+                while isinstance(x, (ast.Attribute, ast.Subscript)):
+                    if isinstance(x, ast.Attribute):
+                        chain.append(x.attr)
+                    x = x.value
+                if isinstance(x, ast.Name) and x.id == "self":
+                    if not chain and n.func.attr in methods:
+                        c.add(n.func.attr)
+                    elif chain and n.func.attr in MUTATOR_METHODS:
+                        w.add(chain[-1])
+                    elif chain and chain[-1] == "rgen" and n.func.attr in DRAW_METHODS:
+                        w.add("rgen")
+            if isinstance(n, ast.Attribute) and isinstance(n.value, ast.Name) and n.value.id == "self":
+                if n.attr in methods:
+                    # property access counts as a call
+                    c.add(n.attr)
+                elif isinstance(n.ctx, ast.Load):
+                    r.add(n.attr)
+        direct_w[name], direct_r[name], calls[name] = w, r, c
+    eff_w = {k: set(v) for k, v in direct_w.items()}
+    eff_r = {k: set(v) for k, v in direct_r.items()}
+    changed = True
+    while changed:
+        changed = False
+        for name in methods:
+            for c in calls[name]:
+                if not eff_w[c] <= eff_w[name]:
+                    eff_w[name] |= eff_w[c]
+                    changed = True
+                if not eff_r[c] <= eff_r[name]:
+                    eff_r[name] |= eff_r[c]
+                    changed = True
+    return eff_w, eff_r, calls
+
+
+def commit_is_final(ctx, rid, repex_rel="infretis/classes/repex.py"):
+    """In treat_output nothing that the restart file serialises is modified after write_toml."""
+    from ..cfg import cfg_of
+    from ..loader import FUNC
+    from ..util import is_self_attr
+    tree = ctx.tree
+    cls = tree.cls(repex_rel, "REPEX_state")
+    methods = {}
+    setters = {}
+    for st in cls.body:
+        if isinstance(st, FUNC):
+            is_setter = any(isinstance(d, ast.Attribute) and d.attr == "setter" for d in st.decorator_list)
+            if is_setter:
+                setters[st.name] = st
+            else:
+                methods.setdefault(st.name, st)
+    eff_w, eff_r, calls = _self_effects(methods)
+    setter_w = {}
+    for nm, st in setters.items():
+        w, _, _ = _self_effects({nm: st})
+        setter_w[nm] = w[nm]
+    # logging helpers only evaluate the memoised P matrix; their own direct writes are still checked
+    direct_only = {}
+    for nm, st in methods.items():
+        if nm.startswith("print"):
+            w, _, _ = _self_effects({nm: st})
+            direct_only[nm] = w[nm]
+    persisted = set(eff_r["write_toml"]) - {"n", "_offset"}
+    f = methods["treat_output"]
+    cfg = cfg_of(f)
+    commits = [c for c in walk_local(f) if isinstance(c, ast.Call) and is_self_attr(c.func, "write_toml")]
+    if not commits:
+        ctx.bad(rid, f, "treat_output does not commit")
+        return
+    bad = False
+    for cm in commits:
+        r = cfg.reachable(cfg.node_of(cm))
+        for n in cfg.nodes:
+            if n.id not in r or n.ast is None or n.kind not in ("stmt", "test", "loop", "with"):
+                continue
+            w = set()
+            for x in ([n.ast] if not isinstance(n.ast, ast.stmt) else [n.ast]):
+                for sub in walk_local(x):
+                    if isinstance(sub, ast.Call) and is_self_attr(sub.func) and sub.func.attr in methods:
+                        w |= direct_only.get(sub.func.attr, eff_w[sub.func.attr])
+                    if isinstance(sub, ast.Attribute) and isinstance(sub.value, ast.Name) and sub.value.id == "self" and sub.attr in methods and isinstance(getattr(sub, "_parent", None), ast.Expr):
+                        w |= eff_w[sub.attr]
+                if isinstance(x, (ast.Assign, ast.AugAssign)):
+                    for t in (x.targets if isinstance(x, ast.Assign) else [x.target]):
+                        y = t
+                        chain = []
+                        while isinstance(y, (ast.Attribute, ast.Subscript)):
+                            if isinstance(y, ast.Attribute):
+                                chain.append(y.attr)
+                            y = y.value
+                        if isinstance(y, ast.Name) and y.id == "self" and chain:
+                            if chain[-1] in setter_w:
+                                w |= setter_w[chain[-1]]
+                            else:
+                                w.add(chain[-1])
+            hit = sorted(w & persisted)
+            if hit:
+                bad = True
+                ctx.bad(rid, n.ast,
+                        f"treat_output modifies state that restart.toml serialises ({hit}) after write_toml: the restart file of this step does not describe the final state of the step "
+                        "(e.g. live paths not yet re-sorted into ensembles where their weight is non-zero), so a restart after a kill fails or diverges",
+                        construct="after write_toml: " + short(n.ast, 70))
+    if not bad:
+        ctx.ok(rid, commits[0], f"write_toml is the last statement of the step that touches persisted state {sorted(persisted)}")
